@@ -124,9 +124,14 @@ func (b *Broadcaster[T]) Broadcast(value T) {
 // the subscribers. The Broadcaster will be a no-op after this call.
 func (b *Broadcaster[T]) Close() {
 	defer b.wg.Wait()
-	b.lock.Lock()
+	// Signal the close before asking for the lock: a Broadcast that is blocked
+	// on a subscriber's full buffer holds the lock and is only released by
+	// closeCh.
 	if b.closed.CompareAndSwap(false, true) {
 		close(b.closeCh)
 	}
-	b.lock.Unlock()
+	// Wait for a Subscribe or Broadcast that may have read the closed flag just
+	// before it was set, so that every forwarder it registers is waited for.
+	b.lock.Lock()
+	b.lock.Unlock() //nolint:staticcheck
 }
